@@ -32,8 +32,77 @@ CLAIMED["C10"] = ("model_checking",
     "TCP is the only enabled transport in the pinned build; shape classes sampled with seeded instances; small-scope constants in TLC",
     "DESIGN.md 4/C10")
 
+CLAIMED["C01"] = ("model_checking",
+  "TLA+ spec NoiseHS (symbolic Dolev-Yao Impl layer of XX + libp2p payload, Prop layer Allowed/Auth) explored completely by TLC; every scenario concretised against the real noise::handshake over an in-memory duplex with a scripted MITM (peer: real handshake, libp2p-noise, or a snow-based rogue with hand-encoded payloads), dialed-peer cases through two real Litep2p nodes over TCP; recorded outcomes validated by TLC against Allowed",
+  "TLC enumerates the whole symbolic scenario space (MITM corrupt/truncate/extend/substitute/replay/drop on each field of the 3 messages, 11 rogue payloads, dial expectations, 4 fragmentations) and checks Auth/NoHang/Agreement; each scenario is executed on the real code at every byte offset of the field (thorough; quick samples offsets) and each observed outcome must be allowed by the property-level verdict: ok only with exactly the proven peer, err whenever a visible byte was altered, the payload is forged/unbound, or the dialed id differs; honest runs must succeed.",
+  "ideal cryptography assumed; one MITM move or one rogue per handshake; deadlocks resolved by closing the pipe (no timers); small-order keys out of scope",
+  "DESIGN.md 4/C01, 10")
+CLAIMED["C02"] = ("model_checking",
+  "TLA+ spec NoisePipe (Impl transcription of NoiseSocket poll_write/poll_flush/poll_read, scale-parametric; Prop monitor) checked by TLC unit-scaled; TLC behaviours, a systematic size/buffer/chunking/config sweep, all attack kinds and seeded random schedules executed on two real NoiseSockets (real handshake) around a scripted carrier with attacks on real ciphertext; every call validated by TLC against the Prop monitor and, at real scale, against the Impl layer",
+  "TLC checks for all bounded schedules of writes, carrier room, chunkings, Pending, read buffers and every single-frame attack that the transcription delivers exactly the written prefix, nothing of or after the first affected frame, errors after an attack, never a spurious error/Pending, frames <= 65535 and everything at quiescence; thousands (quick) / ~90k (thorough) real connections with write sizes up to 5*65520+3, read buffers 1..70000, read-ahead 1/2/5, write buffer 1/2, chunkings 1/2/frame+-1/random with Pending are recorded and each event is accepted by TLC.",
+  "ideal AEAD in the model; one attack per connection; settings >= 1; panic on re-poll after an error recorded, not judged",
+  "DESIGN.md 4/C02, 10")
+CLAIMED["C03"] = ("model_checking",
+  "TLA+ specs Multistream/MultistreamImpl/MultistreamMsg checked by TLC; io scripts of every transition of a bounded graph replayed in lockstep into the real dialer_select_proto/listener_select_proto (litep2p vs litep2p, and against multistream-select 0.13 in either role) and into WebRtcDialerState/webrtc_listener_negotiate; seeded random schedules; recorded outcomes validated by TLC against the Prop layer",
+  "TLC exhaustively shows the implementation-shaped negotiation model (both versions, all fragmentations, all message groupings) satisfies agreement on the dialer's first common name, failure iff disjoint, termination and transparency for small scopes; hundreds of thousands of real negotiations incl. interop with the reference are validated against the same property-level spec",
+  "honest peers, valid names, V1Lazy payload restriction, quiescence instead of time; small-scope constants",
+  "DESIGN.md 4/C03, 10")
+CLAIMED["C04"] = ("model_checking",
+  "TLA+ specs FramedPipe/SubstreamPipe checked by TLC; TLC-generated and seeded poll schedules executed on the real Substream pair over an in-memory yamux connection (Sink API, send_framed, raw malformed prefixes); every recorded execution validated by TLC against the Prop layer",
+  "in-order exact delivery, refusal of out-of-limit messages, error (never panic) on bad lengths, and 'flush complete => delivered without further sender action' checked at every quiescence point, for the TLC-enumerated schedules of a credit-window carrier and for seeded schedules with real sizes up to 1 MiB",
+  "known findings on the pinned tree are reported as KNOWN-FINDING (see known_findings.txt); no byte-level lockstep through yamux; small-scope constants",
+  "DESIGN.md 4/C04, 10")
+CLAIMED["C08"] = ("model_checking",
+  "TLA+ spec SvcLife (property monitor) + SvcLifeMC (implementation-shaped model of TransportService/ConnectionHandle/ProtocolSet with scripted connections) checked by TLC; behaviours per transition, hand-written and seeded random histories replayed into real TransportServices and real ProtocolSets through the in-crate ServiceHarness; runs of two real nodes over loopback TCP; every recorded step validated by TLC against the monitor (and against the model for drift)",
+  "TLC explores every interleaving of establishment/closure of up to two overlapping connections (plus an offered third), inbox polling, open_substream, force_close, connection-side reads/answers/failures, inbound substreams, keep-alive downgrades and the close/task-end window for 1-2 peers, up to 3 connection ids per peer and up to 3 requests; sampled (quick) / all budgeted (thorough) maximal behaviours plus random histories over 3 peers run on the real code and each step is validated: established/closed alternate per protocol and peer, substream events only while connected, each accepted id answered at most once with the matching outcome and exactly once at quiescence unless its connection ended, ids never reused across protocols, report_connection_closed tells protocols before the manager (blocked-call probe).",
+  "scope: at most two overlapping connections per peer (third-connection runs judged for alternation/at-most-once/ids only); scripted legal connections; keep-alive expiry by clock-shift hook; NET exactly-once only on single-connection links with 6x timeout slack; small-scope constants",
+  "DESIGN.md 4/C08, 10")
+CLAIMED["C13"] = ("model_checking",
+  "TLA+ monitor ReqResp + implementation-shaped model ReqRespMC checked by TLC; scripts derived from TLC behaviours, fixed shapes and seeded random scripts executed on networks of real litep2p nodes over loopback TCP under a seeded schedule-perturbing executor with a byte-offset-cutting proxy; every recorded network validated by TLC against the monitor",
+  "TLC explores all interleavings of user commands (<=3 requests incl. two to a peer still being dialed, cancel), protocol loop, dial/connection/substream outcomes and responder behaviours for 1-2 peers and checks exactly-one-terminal, payload provenance, seen-once, the inbound bound and quiescence; ~500 (quick) / ~4600 (thorough) real multi-node executions are judged event by event by the same monitor",
+  "silence judged with >=3x slack on the configured timeouts, lagging networks discarded and re-run; small-scope TLC constants; MODE=impl drift validation not feasible (silent-step blow-up); environment = manager guarantees of C05/C07/C08",
+  "DESIGN.md 4/C13, 10")
+CLAIMED["C14"] = ("model_checking",
+  "TLA+ spec KadRouting (Impl transcription of KBucket::entry/add_known_peer/ClosestBucketsIter + Prop layer) checked by TLC on W-bit XOR models; behaviours per transition and seeded random histories replayed into the real 256-bit K=20 RoutingTable (bucket indices and distance orders computed by the harness's own SHA-256/XOR); recorded calls validated by TLC",
+  "TLC shows for all small tables/histories/targets that placement, bucket bound, no displacement of connected peers and closest = first min(k,n) of the distance order hold on the transcription; per-transition behaviours concretised on real hashes (ballast-filled buckets so eviction/NoSlot run at K=20) and random histories over 100-250 real peers with crafted local keys/targets across all 256 indices are validated call by call",
+  "XOR/SHA-256 arithmetic of the harness trusted; peer keys cannot be chosen (hashes), low buckets reached by crafting the local key; small-scope constants",
+  "DESIGN.md 4/C14, 10")
+CLAIMED["C15"] = ("model_checking",
+  "TLA+ spec KadQuery (Impl contexts FindNode/GetRecord/GetProviders/PutToTargetPeers + Prop monitor) checked by TLC over every reply/failure/ordering pattern of small networks with liars; per-transition behaviours and random schedules replayed on the real QueryEngine; recorded actions validated by TLC; quiescence-based termination",
+  "never local / never twice / fresh in-flight < alpha / exactly one terminal / result sorted, answered, <= replication and closer learned peers contacted / each item once / stop at quorum are checked by TLC on the model for N<=8 peers and on every recorded step of the real engine (7 start_* entry points, 4-30 peer random networks, two lookups sharing an engine, a real-time stale-request scenario)",
+  "distances only as an order (ranks bound to real peer ids by real distance); real 10 s peer timeout scenario discarded when timing assumptions fail; small-scope constants",
+  "DESIGN.md 4/C15, 10")
+CLAIMED["C18"] = ("exploration",
+  "PeerIdRules decision tables (TLA+) enumerated completely by TLC as input classes with expected verdicts; each class concretised with seeded byte strings and run through the real PeerId parsers/derivation/round trips, differentially against libp2p-identity 0.2.14; observations validated by TLC against the tables",
+  "551 abstract classes (multihash code x digest length x declared length x varint form x text form), all key-encoding lengths 0..100, ed25519 keys from seeds; verdict = real equals reference equals table, same bytes, all round trips (bytes, base58, multiaddr, serde), no panic",
+  "for-all-bytes is sampled within classes, not decided; crates shared by litep2p and the reference are invisible to the differential check",
+  "DESIGN.md 4/C18, 10")
+CLAIMED["C19"] = ("exploration",
+  "Decoders.tla (LengthDelimited / payload-size / Message::decode / webrtc negotiation state machines and a decoder x mutation-operator plan) enumerated by TLC; concretised into the real decoders with a counting global allocator, child-process probes and a watchdog; observations validated by TLC",
+  "byte-class sequences up to length 6 x 3 chunkings for the stateful decoders with the exact expected outcome per class (drift) and the property-level outcome (no panic/hang/abort, largest single allocation <= limit + 64 KiB, Decode(Encode(v)) = v); tens of thousands of damaged encodings of every protobuf message kind incl. recursive field damage",
+  "totality over all byte strings is sampled, not decided; Noise transport framing is covered by C02; known findings reported as KNOWN-FINDING",
+  "DESIGN.md 4/C19, 10")
+CLAIMED["C20"] = ("model_checking",
+  "TLA+ spec Bitswap (Impl transcription of extract_next_batch/send_response + Prop; certification decision table) checked by TLC; size sequences and the class table replayed into the real extract_next_batch / blocks_message / send_response over a real Substream / block_to_response / on_message_received; traces validated by TLC against Prop",
+  "batching: TLC exhaustive for small constants incl. termination; every bounded response set executed on the real functions at byte scale and sampled at the real 2 MiB/4 MiB scale, end to end over a real substream; certification: every class of {prefix shape x version x codec x 15 hashes x lengths x intact/tampered} through the real functions with the reported CID compared to an independent recomputation from the received bytes",
+  "certification half is exploration-level (classes sampled with instances); 'fits' = <= MAX_BATCH_SIZE; known findings reported as KNOWN-FINDING",
+  "DESIGN.md 4/C20, 10")
+
+CLAIMED["C11"] = ("model_checking",
+  "TLA+ monitor Notif + implementation-shaped two-endpoint model NotifMC checked by TLC; TLC behaviours, scenario families and a seeded random driver executed on real 2-3 node litep2p networks over loopback TCP (public API, schedule-perturbing executor, TCP proxy faults); every endpoint's command/event log validated by TLC against the monitor",
+  "TLC explores all interleavings of open/close/validation commands, handshake steps, connection-task steps, cuts, reconnects and substream failures on a model transcribed handler by handler (incl. panic arms); the user-visible grammar (alternation, no failure while open, consent before Opened, one answer per obligated open at quiescence, closed after connection loss, no panic, bystander still served) is checked in the model and on each real endpoint log.",
+  "obligations only for opens issued in a clean, connected view (faults/rejections void them); quiescence = 60 s silence, runs with a starved driver not judged; small-scope constants; 5 s no-inbound timer covered in the model only",
+  "DESIGN.md 4/C11, 10")
+CLAIMED["C12"] = ("model_checking",
+  "TLA+ ledger NotifStream + data-plane model NotifStreamMC checked by TLC; bursts, stalls, size classes, close/reopen and cuts executed on real litep2p networks; each direction's sends and deliveries validated by TLC against the ledger",
+  "per mode: deliveries are an in-order, at-most-once subsequence of the accepted notifications with no gap inside an open period, nothing above the maximum, sync send never blocks and clogs only at capacity, async send waits, nothing lost in a stream that stays open; checked exhaustively for capacities {1,2} and on real payload-coded traffic.",
+  "deliveries spilling into the receiver's next period tolerated; transport backpressure cannot reach the sender so waits are provoked by starving the connection task",
+  "DESIGN.md 4/C12, 10")
+
 # harness binaries each claimed property needs (setup builds exactly these)
-BINS = {"C17": ["store"], "C05": ["connmgr", "netdial"], "C06": ["connmgr"], "C10": ["addrbook"]}
+BINS = {"C17": ["store"], "C05": ["connmgr", "netdial"], "C06": ["connmgr"], "C10": ["addrbook"],
+        "C01": ["noisehs"], "C02": ["noisepipe"], "C03": ["mss"], "C04": ["substream"], "C08": ["svc"], "C13": ["reqresp"],
+        "C14": ["routing"], "C15": ["query"], "C18": ["peerid"], "C19": ["decoders"], "C20": ["bitswap"], "C11": ["notif"], "C12": ["notif"]}
 
 NOT_YET = "check not built yet (work in progress, see DESIGN.md build order)"
 NA = {}
